@@ -14,8 +14,8 @@ def run(ctx):
     nkills = 0
     with quiet_stderr():
         for i in range(ctx.pick(5, 60)):
-            cc, ops = fs_drv.make_job(rng, ctx.seed * 977 + i, restart=(i % 2 == 1), digits=(i == 2))
-            s = fs_drv.stepped(fc.env_for(env, i), drf, cc, ops, "step%d%s" % (i, "-restart" if i % 2 == 1 else ""), rng)
+            cc, ops = fs_drv.make_job(rng, ctx.seed * 977 + i, restart=("backfill" if i % 4 == 3 else i % 2 == 1), digits=(i == 2))
+            s = fs_drv.stepped(fc.env_for(env, i), drf, cc, ops, "step%d%s" % (i, "-backfill" if i % 4 == 3 else ("-restart" if i % 2 == 1 else "")), rng)
             scen.append(s)
             n = s["nops"]
             # a real SIGKILL while the writer is blocked before operation k: always some inside the creation of the channel
